@@ -795,9 +795,9 @@ def check_c06(pid, tier, seed):
     # the look-alikes in which a check lands on the horizon: every capture search logged node by node (no sampling), so that
     # SearchWB's soundness clause sees each being-mated score the capture search returns
     for i, f in enumerate(mfens[-14:] if not quick else mfens[-14:][seed % 2::2]):
-        for d in (1, 2, 3):
+        for d in ((1, 2) if quick else (1, 2, 3)):
             wbs.append({"id": 950000 + 10 * i + d, "steps": [{"fen": f, "depth": d, "seed": rnd.randrange(1 << 30), "workers": 1, "tables": 2, "buckets": 256, "tag": "whitebox-horizon",
-                                                              "qs_every": 1, "qs_budget": 40000}]})
+                                                              "qs_every": 1, "qs_budget": 8000 if quick else 40000}]})
     whitebox(chk, wvbin, wd, pid, wbs)
     st, samples = trace_stats(traces)
     ver = json.load(open(os.path.join(WORK, "tb", "verified.json")))
